@@ -406,6 +406,15 @@ def gen_tla(path):
     for k in sorted(UNIT):
         A("Unit_%s == %s" % (k, tla_set(ids(UNIT[k]))))
         A("Unit08_%s == %s" % (k, tla_set(ids(UNIT[k], lambda v: v["std"] == 8))))
+    from . import perturb as _pt
+    def _spl(tab):
+        return [i + 1 for i, v in enumerate(tab) if v["std"] != 99 and len(_pt.layout_tokens(v["text"].replace("{L}", "10").replace("{N}", "nm"))) >= 2]
+    A("SplitS == " + tla_set(_spl(SIMPLE)))
+    A("SplitDecl == " + tla_set(_spl(DECL)))
+    A("SplitUse == " + tla_set(_spl(USE)))
+    A("SplitComp == " + tla_set(_spl(COMP)))
+    for k in sorted(OPEN):
+        A("SplitOpen_%s == %s" % (k, tla_set(_spl(OPEN[k]))))
     A("TypeProcOnlyModule == " + tla_set(ids(OPEN["type"], lambda v: not v["proc"])))
     A("=============================================================================")
     with open(path, "w") as f:
@@ -414,4 +423,7 @@ def gen_tla(path):
 
 if __name__ == "__main__":
     import os, sys
-    gen_tla(os.path.join(os.path.dirname(os.path.dirname(os.path.abspath(__file__))), "specs", "Catalogue_gen.tla"))
+    sys.path.insert(0, os.path.dirname(os.path.dirname(os.path.abspath(__file__))))
+    from mbt import catalogue as _c
+    _c.gen_tla(os.path.join(os.path.dirname(os.path.dirname(os.path.abspath(__file__))), "specs", "Catalogue_gen.tla"))
+    sys.exit(0)
